@@ -1557,7 +1557,11 @@ def compile_try_expression(compiler, expr, root, body, catchers, orelse, finalbo
     expr_name = asty.Name(expr, id=return_var.id, ctx=ast.Load())
     returnable = Result(
         expr=expr_name,
-        temp_variables=[expr_name, return_var],
+        # With a `finally` clause, don't let `Result.rename` replace
+        # the temporary with an assignment target: the `finally` forms
+        # run after the temporary is set and must still see (and may
+        # set) the target's own value.
+        temp_variables=[] if finalbody else [expr_name, return_var],
     )
     body += (
         body.expr_as_stmt()
